@@ -172,6 +172,8 @@ def _hashes():
             "crc32": lambda d: zlib.crc32(d) & 0xffffffff,
             "sum8": lambda d: sum(d) & 0xff,
             "adler16": lambda d: (zlib.adler32(d) & 0xffff),
+            "sha256_i64": lambda d: int.from_bytes(hashlib.sha256(d).digest()[:8], "big"),
+            "sha256_i48": lambda d: int.from_bytes(hashlib.sha256(d).digest()[:6], "big"),
         })
     return HASHES
 
